@@ -261,6 +261,46 @@ def run(ctx):
                                 which, count, 'default' if not kw else L, wfl, 'PatternLimitException' if raised else 'no exception'),
                                 {'which': which, 'count': count, 'limit': L, 'flags': wfl, 'expected_raise': expect})
         ctx.counted('WcMatch file / folder-exclude pattern limits', nw, nw // 2, [{'exclude': 'd{1..6}', 'limit': 5}])
+        # what counts as one pattern: the text.  Patterns that differ only in letter case are different patterns even when case is
+        # ignored, and the empty string given as a whole pattern (list element, exclude='') is a pattern like any other
+        ne = 0
+        odd = [(['a', 'b'], ['\xe9', '\xc9'], 4), (['a', 'b'], ['x', 'X'], 4), (['{a,b}'], ['{\xe9,\xc9}'], 4), (['a'], ['\u03c3|\u03a3'], 3), (['q', 'Q', 'r'], None, 3),
+               (['k', '\u212a'], ['z'], 3), (['[a-z]', '[A-z]'], ['n'], 3), (['', 'a|b'], None, 3), (['', 'a', 'b'], None, 3), (['a|b'], [''], 3), (['a'], [''], 2),
+               (['a', ''], ['b', 'B'], 4), (['', 'a', 'A'], None, 3)]
+        for pats_, ex_, tot_ in odd:
+            for xname, xf in (('IGNORECASE', Gm.IGNORECASE), ('FORCEWIN', Gm.FORCEWIN), ('', 0), ('CASE', Gm.CASE)):
+                # an empty string under BRACE expands to nothing at all (bracex), so the empty pattern is given without BRACE
+                fl_ = (Gm.SPLIT if '' in pats_ + (ex_ or []) else Gm.BRACE | Gm.SPLIT) | xf
+                kx = {} if ex_ is None else {'exclude': ex_}
+                bx = {} if ex_ is None else {'exclude': [x.encode() for x in ex_]}
+                ascii_ = all(ord(c) < 128 for x in pats_ + (ex_ or []) for c in x)
+                calls = {'fnmatch.fnmatch': lambda L: Fm.fnmatch('zz', pats_, flags=fl_, limit=L, **kx), 'fnmatch.filter': lambda L: Fm.filter(['zz'], pats_, flags=fl_, limit=L, **kx),
+                         'fnmatch.compile': lambda L: Fm.compile(pats_, flags=fl_, limit=L, **kx), 'fnmatch.translate': lambda L: Fm.translate(pats_, flags=fl_, limit=L, **kx),
+                         'glob.globmatch': lambda L: Gm.globmatch('zz', pats_, flags=fl_, limit=L, **kx), 'glob.globfilter': lambda L: Gm.globfilter(['zz'], pats_, flags=fl_, limit=L, **kx),
+                         'glob.translate': lambda L: Gm.translate(pats_, flags=fl_, limit=L, **kx), 'glob.compile': lambda L: Gm.compile(pats_, flags=fl_, limit=L, **kx),
+                         'glob.glob': lambda L: Gm.glob(pats_, flags=fl_, limit=L, root_dir=tmp, **kx), 'glob.iglob': lambda L: list(Gm.iglob(pats_, flags=fl_, limit=L, root_dir=tmp, **kx)),
+                         'pathlib.glob': lambda L: list(PLm.Path(tmp).glob(pats_, flags=fl_, limit=L, **kx)), 'pathlib.rglob': lambda L: list(PLm.Path(tmp).rglob(pats_, flags=fl_, limit=L, **kx)),
+                         'PurePath.globmatch': lambda L: PLm.PurePath('zz').globmatch(pats_, flags=fl_, limit=L, **kx),
+                         'PureWindowsPath.match': lambda L: PLm.PureWindowsPath('zz').match(pats_, flags=fl_ & ~Gm.FORCEWIN, limit=L, **kx)}
+                if ascii_:
+                    calls['glob.glob bytes'] = lambda L: Gm.glob([x.encode() for x in pats_], flags=fl_, limit=L, root_dir=tmp.encode(), **bx)
+                    calls['fnmatch bytes'] = lambda L: Fm.fnmatch(b'zz', [x.encode() for x in pats_], flags=fl_, limit=L, **bx)
+                for api, th in calls.items():
+                    for L, expect in ((tot_ - 1, True), (tot_, False)):
+                        ne += 1
+                        try:
+                            th(L)
+                            raised = False
+                        except W.PatternLimitException:
+                            raised = True
+                        except Exception as e_:
+                            ctx.counterexample('%s(%r, exclude=%r, %s, limit=%d) raised %s: %s' % (api, pats_, ex_, corr.flag_names(fl_), L, type(e_).__name__, e_), {'api': api, 'patterns': pats_, 'exclude': ex_, 'limit': L})
+                            continue
+                        if raised != expect:
+                            ctx.counterexample('%s(%r, exclude=%r, %s, limit=%d): %s although the call names %d distinct patterns' % (
+                                api, pats_, ex_, corr.flag_names(fl_), L, 'PatternLimitException' if raised else 'no PatternLimitException', tot_),
+                                {'api': api, 'patterns': pats_, 'exclude': ex_, 'flags': corr.flag_names(fl_), 'limit': L, 'distinct': tot_})
+        ctx.counted('what counts as one pattern (case twins, the empty string)', ne, ne, [{'patterns': ['a', 'b'], 'exclude': ['\xe9', '\xc9'], 'flags': 'IGNORECASE', 'limit': 3}])
     finally:
         shutil.rmtree(tmp, ignore_errors=True)
     return ctx.finish(RULE)
